@@ -219,6 +219,8 @@ structure St where
   onB : List (Bytes × Bytes) := []
   /-- ids touched at the excluded point: look-ups are echoed -/
   skip : List Bytes := []
+  /-- an `ingest` happened (observation outside the property): look-ups are echoed from then on -/
+  observe : Bool := false
 
 def idBytes (tok : String) : Bytes := (id32 tok).map UInt8.ofNat
 
@@ -312,7 +314,7 @@ def step (st : St) (tok : List String) (_line : String) (impl : Option String) :
   | ["fetch", who, idTok] =>
     if !st.ready then (st, "no-cfg", "ok") else
     let id := idBytes idTok
-    if st.skip.contains id then (st, impl.getD "zero-key", "ok") else
+    if st.skip.contains id || st.observe then (st, impl.getD "not-judged", "ok") else
     let node := if who == "b" then st.b else st.a
     let out := fmtFetch (fetchChunk node id (zeros 32))
     let expect := (if who == "b" then st.onB else st.onA).lookup id
@@ -322,8 +324,11 @@ def step (st : St) (tok : List String) (_line : String) (impl : Option String) :
       | some p => if i == "hit " ++ canon p then "ok" else s!"viol:{clause}:expected hit {canon p}"
       | none => "ok"
     (st, out, verdict)
+  | ["ingest", _who, _spec] =>
+    if !st.ready then (st, "no-cfg", "ok") else ({ st with observe := true }, impl.getD "not-judged", "ok")
   | ["receive", spec] =>
     if !st.ready then (st, "no-cfg", "ok") else
+    if st.observe then (st, impl.getD "not-judged", "ok") else
     match st.last with
     | none => (st, "no-manifest", "ok")
     | some last =>
@@ -338,7 +343,8 @@ def step (st : St) (tok : List String) (_line : String) (impl : Option String) :
         let (b', r) := receiveChunk st.cfg st.b wall (if dec then some m else none) ct (zeros 32)
         let acc := r.isAccepted
         let ret := match r with | .accepted p => canon p | _ => "none"
-        let after := if acc then (match fetchChunk b' m.chunkId (zeros 32) with | .value (some p) => canon p | _ => "miss") else "-"
+        let after := if acc then (match fetchChunk b' m.chunkId (zeros 32) with
+          | .value (some p) => canon p | .value none => "miss" | _ => "throw") else "-"
         let out := s!"{if acc then "accept" else "reject"} ret={ret} dec={b01 dec} stored={b01 (find b'.chunks m.chunkId).isSome}" ++
           s!" ann={b01 (find b'.announced m.chunkId).isSome} changed={b01 (decide (b' ≠ st.b))} fetch={after}"
         let implAcc := (impl.getD "").startsWith "accept"
@@ -350,6 +356,8 @@ def step (st : St) (tok : List String) (_line : String) (impl : Option String) :
             | none => "viol:tamper-accepted:the replica's decryption does not hash to the manifest's content hash"
             | some pt =>
               if field fs "ret" != canon pt then "viol:tamper-accepted:returned bytes are not the decryption of the replica"
+              else if field fs "fetch" != field fs "ret" || field fs "stored" != "1" then
+                "viol:roundtrip-replica:the importing node cannot serve the replica it accepted: " ++ i
               else if harmless spec && (field fs "stored" != "1" || field fs "ann" != "1" || field fs "fetch" != canon last.payload
                                          || pt != last.payload) then
                 "viol:roundtrip-replica:accepted but not stored / announced / readable: " ++ i
